@@ -455,7 +455,34 @@ def replay_file(path):
 
 
 # ------------------------------------------------------------------ one query
+import threading
+_HEAVY_CAP = float(os.environ.get("VP_HEAVY_GB", "44"))   # total address-space budget of concurrently running heavy queries
+_heavy_used = 0.0
+_heavy_cv = threading.Condition()
+
+
 def run_query(q, replay_dir, prop_id):
+    """memory-aware wrapper: queries whose cap exceeds 12 GB share a budget so that several of them never run the box out of
+    memory (the kernel's OOM killer takes unrelated queries with it)"""
+    global _heavy_used
+    need = float(getattr(q, "mem_gb", 0) or 0)
+    heavy = need > 12
+    if heavy:
+        need = min(need, _HEAVY_CAP)
+        with _heavy_cv:
+            while _heavy_used + need > _HEAVY_CAP:
+                _heavy_cv.wait()
+            _heavy_used += need
+    try:
+        return _run_query(q, replay_dir, prop_id)
+    finally:
+        if heavy:
+            with _heavy_cv:
+                _heavy_used -= need
+                _heavy_cv.notify_all()
+
+
+def _run_query(q, replay_dir, prop_id):
     """Runs the query; on failures, obtains a trace and replays natively.
     Returns a result dict."""
     if isinstance(q, PyQuery):
